@@ -29,4 +29,7 @@ def check(run, model, tier):
     # fall through to the entry loop with index -1 (it would enter a stale state and ask for the initial transition again, for ever)
     hsmrules.record_buffer_obligations(run, model, 'dispatch')
     run.assume('H1: top answers IGNORED to SUPER queries and does not move the cursor; a well-formed handler moves the cursor to its parent')
+    run.rule('HSM-PROGRESS.selfinit', 'an initial transition that targets the state taking it leads to a raise before the next INIT query and before the method returns (abstract run under that assumption)')
+    n_si = hsmrules.selfinit_rule(run, model)
+    run.floor('INIT sites judged under the self-targeting assumption', n_si, 2)
     hsmrules.protocol_census(run, model)
